@@ -31,10 +31,15 @@ DEFAULTS = [(2003, 9, 25, 0, 0, 0, 0), (2000, 1, 31, 0, 0, 0, 0), (2001, 3, 30, 
 # ---------------------------------------------------------------------------- known finding (D15)
 
 def m_second_ampm(payload):
-    """strict parse succeeds but fuzzy differs, and the text has a second AM/PM word"""
-    return (payload.get("kind", "").startswith("fuzzy_conservative")
-            and isinstance(payload.get("input"), dict)
-            and PC.ampm_word_count(payload["input"].get("s", "")) >= 2)
+    """strict parse succeeds, fuzzy differs, AND the guard of theorem C15_fuzzy_conservative_guarded fails on
+    this input: evaluated on the extracted model (strict_clash = the strict run reaches an AM/PM word while
+    an AM/PM flag is already set; C15_guard_computable), so matcher = complement of the theorem's guard"""
+    inp = payload.get("input")
+    if not (payload.get("kind", "").startswith("fuzzy_conservative") and isinstance(inp, dict)):
+        return False
+    if PC.ampm_word_count(inp.get("s", "")) < 2:
+        return False
+    return PC.model_strict_clash(PC.opts_from_json(inp.get("opts")), inp["s"])
 
 
 MATCHERS = {"m_second_ampm": m_second_ampm}
